@@ -74,12 +74,13 @@ Admissible(in, c) == {o \in {Permute(in, p) : p \in Perms(Len(in))} : Sorted(o, 
 (***************************************************************************)
 (* The mechanism.                                                          *)
 (***************************************************************************)
-AtomOrder == <<"none", "v4a", "v4b", "v4c", "v6a", "v6b", "v6c", "eth0", "eth1", "eth2",
+AtomOrder == <<"none", "v4a", "v4b", "v4c", "v6m", "v6a", "v6b", "v6c", "eth0", "eth1", "eth2",
                "hA", "hB", "hC", "id1", "id2", "id3", "-", "utc", "cest", "est", "ist">>
 RankMap == [x \in Range(AtomOrder) |-> CHOOSE i \in 1..Len(AtomOrder) : AtomOrder[i] = x]
 Rank(x) == RankMap[x]
 
-\* netip.Addr order on the atoms: the invalid address, then IPv4, then IPv6
+\* netip.Addr order on the atoms: the invalid address, then IPv4, then IPv6 (v6m is the IPv4-mapped
+\* IPv6 form ::ffff:10.0.0.1 of v4a: a different address that sorts as IPv6)
 AttrsLess(a, b) ==
   IF a.sip # b.sip THEN Rank(a.sip) < Rank(b.sip)
   ELSE IF a.dip # b.dip THEN Rank(a.dip) < Rank(b.dip)
